@@ -2,6 +2,7 @@ import NeumannModel.Common.Proto
 import NeumannModel.KV.Model
 import NeumannModel.KV.Bloom
 import NeumannModel.KV.Index
+import NeumannModel.KV.Ring
 /-
   Line-protocol driver for the concurrent-store model (C11).
 
@@ -29,6 +30,18 @@ import NeumannModel.KV.Index
       NOT the code: the write section of `try_get_or_create` appends without looking again
       (`Index.runSchedI false`)
     witness two_first_puts | witness recreate   (schedules of `runi` / `runin`)
+    runr <wal:0|1> <collisions> <programs> <schedule>
+      the store with the cache ring as it is (`Ring.runSchedR`, 256 slots): an index from the HASH of
+      a key to a slot, `get` of a `_cache:` key in two steps - after an index hit it parks at
+      `cache_ring.get.after_index` (one more entry in the trace) and reads the slot in its next step
+      collisions : `-` (no two keys share a hash) | groups separated by `,`, the keys of a group
+                   (which all have ONE hash) joined by `=`, e.g. `x5f63…=x5f63…,c7=c8`
+    runrf <wal:0|1> <collisions> <programs> <schedule>
+      the same ring at the granularity of a tree WITHOUT the yield point inside `CacheRing::get`
+      (`Ring.runSchedRFused`: both lock sections of `get` in one scheduler step)
+    runrn <wal:0|1> <collisions> <programs> <schedule>
+      NOT the code: `get` without the comparison `entry.key == key` (`runSchedRGetWithoutKeyCheck`)
+    witness ring_race | witness ring_collision  →  `<wal> <collisions> <programs> <schedule>` (for `runr` / `runrn`)
     witness emb_mixture | witness durable_order | witness delete_skip_if_absent | witness bloom_late_add
                     →  `<wal> <programs> <schedule>` of the Lean witness theorems
     lin <hist>  — not implemented (answers bad-op); the harness has its own Wing–Gong checker.
@@ -228,6 +241,41 @@ def showRunI (w : String) (progs : List (List Op)) (sys : ISys) : String :=
     else ""
   base ++ walPart ++ s!" | q={if quiescentI sys then 1 else 0}"
 
+
+/-- an injective code of a byte string (bytes < 256): base 257, digits 1..256 -/
+def encodeBytes (bs : List Nat) : Nat := bs.foldl (fun a b => a * 257 + b + 1) 0
+
+/-- the hash function of a run: the keys of one group share a hash, every other key has its own -/
+def hashOfGroups (groups : List (List Key)) (k : Key) : Nat :=
+  match groups.findIdx? (fun g => g.contains k) with
+  | some i => i
+  | none => groups.length + encodeBytes k.bytes
+
+def parseGroups (s : String) : Option (List (List Key)) :=
+  if s = "-" then some [] else (s.splitOn ",").mapM fun g => (g.splitOn "=").mapM parseKey
+
+def showGroups (gs : List (List Key)) : String :=
+  if gs.isEmpty then "-" else ",".intercalate (gs.map fun g => "=".intercalate (g.map showKey))
+
+def ringCap : Nat := 256
+
+def siteOfR (op : Op) : RPC → String
+  | .hook pc => siteOf op pc
+  | .ringGetAfterIndex _ => "cache_ring.get.after_index"
+
+/-- the run of the ring-granularity machine, rendered as `showRun` renders `Sys` -/
+def showRunR (c : RingCfg) (w : String) (progs : List (List Op)) (sys : RSys) : String :=
+  let ks := keyUniverse progs
+  let tr := joinOr (sys.trace.map fun (t, op, pc) => s!"{t}:{siteOfR op pc}:{opKeyStr op}")
+  let hi := joinOr (sys.hist.map fun r => s!"{r.t}.{r.i}:{r.inv}-{r.ret}:{showRes r.res}")
+  let img := joinOr (ks.map fun k => showView k (viewR c sys.store k))
+  let base := s!"trace {tr} | hist {hi} | image {img}"
+  let walPart :=
+    if w = "1" then
+      s!" | wal {joinOr (sys.store.base.wal.map showEntry)} | rimage {showImage (recover sys.store.base.wal) ks}"
+    else ""
+  base ++ walPart ++ s!" | q={if quiescentR sys then 1 else 0}"
+
 def kvStep (_ : Unit) (line : String) : Unit × String :=
   let bad := ((), "bad-op")
   match words line with
@@ -249,6 +297,15 @@ def kvStep (_ : Unit) (line : String) : Unit × String :=
           if w ≠ "0" ∧ w ≠ "1" then bad else
           ((), showRunI w progs (runSchedI false (w = "1") progs sched))
       | _, _ => bad
+  | [cmd, w, gs, ps, sc] =>
+      if cmd ≠ "runr" ∧ cmd ≠ "runrn" ∧ cmd ≠ "runrf" then bad else
+      match parseGroups gs, parseProgs ps, parseNats sc with
+      | some groups, some progs, some sched =>
+          if w ≠ "0" ∧ w ≠ "1" then bad else
+          let c : RingCfg := { hash := hashOfGroups groups, pick := fun _ => 0, keyCheck := cmd ≠ "runrn" }
+          if cmd = "runrf" then ((), showRunR c w progs (runSchedRFused c ringCap (w = "1") progs sched)) else
+          ((), showRunR c w progs (runSchedR c ringCap (w = "1") progs sched))
+      | _, _, _ => bad
   | [cmd, w, ps, sc] =>
       if cmd ≠ "runb" ∧ cmd ≠ "runbl" then bad else
       match parseProgs ps, parseNats sc with
@@ -264,6 +321,9 @@ def kvStep (_ : Unit) (line : String) : Unit × String :=
   | ["witness", "delete_skip_if_absent"] => ((), s!"1 {showProgs putDeleteAbsentProgs} {showNats putDeleteAbsentSched}")
   | ["witness", "two_first_puts"] => ((), s!"0 {showProgs twoFirstPutsProgs} {showNats twoFirstPutsSched}")
   | ["witness", "recreate"] => ((), s!"0 {showProgs recreateProgs} {showNats recreateSched}")
+  | ["witness", "ring_race"] => ((), s!"0 - {showProgs ringRaceProgs} {showNats ringRaceSched}")
+  | ["witness", "ring_collision"] =>
+      ((), s!"0 {showGroups [[kC1, kC2]]} {showProgs ringCollisionProgs} {showNats ringCollisionSched}")
   | ["witness", "bloom_late_add"] => ((), s!"0 {showProgs lateAddProgs} {showNats lateAddSched}")
   | _ => bad
 
